@@ -617,7 +617,7 @@ impl InstrFormat for InstrFormat07 {
     }
 
     fn write_instr(&self, f: &mut BinWriter, emitter: &dyn Emitter, instr: &RawInstr) -> WriteResult {
-        f.write_u16(instr.opcode)?;
+        f.write_u16(llir::non_terminal_opcode(emitter, instr.opcode)?)?;
         f.write_u16(llir::header_field(emitter, "instruction size", self.instr_size(instr) as i64)?)?;
         f.write_i16(llir::header_field(emitter, "time", instr.time)?)?;
         f.write_u16(instr.param_mask as _)?;
